@@ -619,6 +619,29 @@ func c18Alone(kindPath string, w []byte, aux int) map[string]string {
 	return res
 }
 
+// c18Fresh: every method of the root value and of its pointer fields called on a value built for that one
+// call — "the result it would return alone" in the strict sense (no other call has touched the value).
+func c18Fresh(kindPath string, w []byte, aux int) map[string]string {
+	val, _, _ := c18Build(kindPath, w, aux)
+	if val == nil {
+		return nil
+	}
+	res := map[string]string{}
+	n := len(c18Methods(c18Subjects(reflect.ValueOf(val), false, 6)))
+	for i := 0; i < n; i++ {
+		v, _, _ := c18Build(kindPath, w, aux)
+		if v == nil {
+			return res
+		}
+		ms := c18Methods(c18Subjects(reflect.ValueOf(v), false, 6))
+		if i >= len(ms) {
+			break
+		}
+		res[ms[i].key+"."+ms[i].name] = c18Call(ms[i].subject, ms[i].idx)
+	}
+	return res
+}
+
 func c18Build(kindPath string, w []byte, aux int) (interface{}, string, bool) {
 	kind, pathName := kindPath, ""
 	if i := strings.IndexByte(kindPath, '/'); i >= 0 {
@@ -812,6 +835,25 @@ func init() {
 			fails = append(fails, fail("C18", sig, "%s.%s (%s) returned %s when called alone and %s when %d goroutines shared the value",
 				d.m.typ, d.m.name, d.m.key, trunc(d.m.want, 200), trunc(d.got, 200), c18Goroutines))
 		}
+		// 3. history: a result obtained after the other read-only calls ran must equal the one obtained on a value
+		//    no call has touched ("read-only operations mutate neither the receiver nor package-level state")
+		fresh := c18Fresh(a[0], w, aux)
+		var hk []string
+		for k := range fresh {
+			hk = append(hk, k)
+		}
+		sort.Strings(hk)
+		for _, k := range hk {
+			if wv, ok := want[k]; ok && again != nil && again[k] == wv && fresh[k] != wv {
+				sig := "result-depends-on-earlier-calls:" + a[0] + ":" + k
+				if !seen[sig] && len(seen) < 24 {
+					seen[sig] = true
+					fails = append(fails, fail("C18", sig, "%s returns %s on an untouched value and %s after the other read-only methods ran once",
+						k, trunc(fresh[k], 200), trunc(wv, 200)))
+				}
+			}
+		}
+		counters["c18-fresh-value-calls"] += len(fresh)
 		unstable := 0
 		for k, v := range want {
 			if again == nil || again[k] != v {
